@@ -36,7 +36,7 @@ IdentityMutations ==
     no_name_login |-> "fields", name_control |-> "fields", nonce_short |-> "fields", nonce_missing |-> "fields",
     avatar_bad |-> "fields", clock_back |-> "clocks", clock_dropped |-> "clocks", clock_all_dropped |-> "clocks", clock_none |-> "clocks",
     keys_garbage |-> "keys", keys_wrongtype |-> "keys", keys_null |-> "keys", keys_number |-> "keys",
-    merge_commit |-> "chain", ref_other_id |-> "ref", ref_bad_name |-> "ref" ]
+    merge_commit |-> "chain", recommitted |-> "chain", ref_other_id |-> "ref", ref_bad_name |-> "ref" ]
 
 Positions == {"root", "middle", "head"}
 Locals == {"absent", "equal", "ahead", "behind", "diverged"}
@@ -62,14 +62,18 @@ ValidStatus(local) == CASE local = "absent" -> "new" [] local = "equal" -> "noth
 VARIABLE st
 BugCases == {[kind |-> "bug", m |-> m, pos |-> p, local |-> l, class |-> BugClass(m, p), verdict |-> Verdict(BugClass(m, p)), status |-> ValidStatus(l)] :
                m \in DOMAIN BugMutations, p \in Positions, l \in Locals}
+(* recommitted: the versions known locally stored again in commits of the remote's own (same blobs, same version and identity
+   ids, other commit hashes) with one more version on top: valid where the identity is unknown, a foreign history - not a
+   continuation of the local one - everywhere else *)
+IdentityClass(m, l) == IF m = "recommitted" /\ l = "absent" THEN "valid" ELSE IdentityMutations[m]
 IdentityApplicable(m, p) ==
-  CASE m \in {"clock_back", "clock_dropped", "clock_all_dropped", "clock_none", "merge_commit"} -> p = "head"
+  CASE m \in {"clock_back", "clock_dropped", "clock_all_dropped", "clock_none", "merge_commit", "recommitted"} -> p = "head"
     [] m \in {"ref_other_id", "ref_bad_name", "none"} -> p = "head"
     [] OTHER -> p \in {"root", "head"}
 (* identities merge fast-forward only: a diverged valid remote is refused as well *)
 IdentityStatus(local) == CASE local = "absent" -> "new" [] local = "equal" -> "nothing" [] local = "ahead" -> "nothing"
                            [] local = "behind" -> "updated" [] local = "diverged" -> "invalid"
-IdentityCases == {[kind |-> "identity", m |-> m, pos |-> p, local |-> l, class |-> IdentityMutations[m], verdict |-> Verdict(IdentityMutations[m]), status |-> IdentityStatus(l)] :
+IdentityCases == {[kind |-> "identity", m |-> m, pos |-> p, local |-> l, class |-> IdentityClass(m, l), verdict |-> Verdict(IdentityClass(m, l)), status |-> IdentityStatus(l)] :
                m \in DOMAIN IdentityMutations, p \in Positions, l \in Locals}
 
 Init == st \in {c \in BugCases : BugApplicable(c.m, c.pos)} \cup {c \in IdentityCases : IdentityApplicable(c.m, c.pos)}
